@@ -47,7 +47,10 @@ def run(tier, seed):
     ]
     res.assumptions = ["ports passed to port_kind belong to the operation (value ports, static port, order port) - other offsets raise IndexError/InvalidPort and are outside the statement",
                        "tags and case / successor indices are within range (negative indices keep Python's meaning and are not claimed)"]
-    standard_flow(res, FILES, targets(), None, bounded_modules=[("bounded.c06", 120, 600)])
+    # the graph-level wrappers: the kind / type of a port of a node is the one its operation reports
+    base_files = [os.path.join(VERIF, "contracts", f) for f in ("node_port.py", "utils.py", "base.py", "base_ports.py")]
+    standard_flow(res, FILES, targets(), None, bounded_modules=[("bounded.c06", 120, 600)],
+                  more=[(base_files, ["hugr.hugr.base.Hugr.port_kind", "hugr.hugr.base.Hugr.port_type"])])
     for g in ground():
         res.ground.append(g)
         if not g["ok"]:
@@ -59,5 +62,6 @@ def run(tier, seed):
     res.level = "other"
     res.explanation = ("Signatures, output counts and port kinds of every operation class in ops.py are proved against the statement's table "
                        "(incl. Call/LoadFunc with arity-changing instantiations, the order port in both directions, MakeTuple/UnpackTuple inverse through the ext_op chain). "
-                       "Hugr.port_kind / Hugr.port_type (base.py) and AsExtOp/ExtOp num_out for registered std ops are covered by the bounded table check only, hence category other.")
+                       "Hugr.port_kind / Hugr.port_type (base.py) are proved to report what the node's operation reports (KeyError exactly for nodes that are not live). "
+                       "AsExtOp / ExtOp num_out and signatures of the registered standard operations are covered by the bounded table check only, hence category other.")
     return res.finish()
